@@ -21,7 +21,8 @@ EXPLANATION = (
     'normalised filename; the value returned comes from the sanitiser; the '
     'normaliser is str(abspath(fsdecode(x))). R10.4/R10.5: partial '
     'acquisition of parent directories is handed off and removed at commit/'
-    'rollback (R14.3). Each order is a dominance query over all paths.')
+    'rollback (R14.3). Each order is a dominance query over all paths.'
+    ' R10.2 also includes exception identity (R2.2) and the reservation typestate of _build_file (R14.1).')
 
 
 def r10_1(ctx, rc):
